@@ -19,6 +19,8 @@ WITNESS = {
     "F-29": (ENG, "fifo 1 10 0 0 60 0 0 0 %d s i 1 100 1 m i 1 101 8 i 2 102 8 m $ p 1 p 2 y 900" % B, "cost-drift-readmit"),
     "F-29-capacity": (ENG, "fifo 1 10 0 0 60 0 0 0 %d s i 1 100 8 m i 1 101 1 i 2 102 8 i 3 103 8 m $ p 1 p 2 p 3 y 900" % B, "capacity-readmit"),
     "F-34-drain": (ENG, "lru 1 4 0 0 60 0 0 0 %d s i 1 100 1 %s i 1 101 0 m $ p 1 p 2 y 900" % (B, " ".join("i 2 %d 5" % (200 + i) for i in range(15))), "cost-drift-partial-drain"),
+    "F-34-drain-capacity": (ENG, "lru 1 4 0 0 60 0 0 0 %d s i 1 100 1 %s i 1 101 0 m m $ p 1 p 2 y 900" % (B, " ".join("i 2 %d 5" % (200 + i) for i in range(15))), "capacity-partial-drain"),
+    "F-18-lossy": (ENG, "lru 1 4 0 0 60 0 0 1 %d s i 1 100 1 %s i 1 101 0 $ m $ p 1 p 2 y 900" % (B, " ".join("i 2 %d 5" % (200 + i) for i in range(512))), "cost-drift-dropped-event"),
 }
 
 
